@@ -81,3 +81,106 @@ package atp
 //@   requires s != nil
 //@   ensures (ghost("calls:atp.atpServerSession.sendRuntimeMessage") - old(ghost("calls:atp.atpServerSession.sendRuntimeMessage"))) + (sends(s.workDone) - old(sends(s.workDone))) == 1
 //@   ensures sends(s.workDone) > old(sends(s.workDone)) ==> lastsent(s.workDone).RunID == runID && lastsent(s.workDone).StepFatal && !lastsent(s.workDone).ServerFatal
+
+// ---------------------------------------------------------------------------------------------
+// C08 / C06: client
+// ---------------------------------------------------------------------------------------------
+
+//@ invariant client(c): c.logger != nil && c.decoder != nil && c.encoder != nil && c.runningStepResultEntries != nil && c.runningStepEmittedSignalChannels != nil && c.rawAtpChannels != nil && c.context != nil && c.cancelFunc != nil && c.decMode != nil
+//@ nonnil *executionEntry
+
+// The client mutex guards the two run tables, the read-loop flag and the done flag; entries and their condition
+// variables are reachable only through the result table.
+//@ monitor client.mutex protects runningStepResultEntries, runningStepEmittedSignalChannels, readLoopRunning, done types executionEntry conds executionEntry.condition
+// C06 (safety core): while a caller is waiting for a result, a read loop is marked running.
+//@ monitorinvariant client.mutex(c): (exists k string :: k in c.runningStepResultEntries && c.runningStepResultEntries[k].result == nil) ==> c.readLoopRunning
+// A signalled entry has its result.
+//@ invariant executionEntry(e): signalled(e) ==> e.result != nil
+
+//@ func NewClientWithLogger(channel, logger) -> res
+//@   requires channel != nil
+
+// C08: no schema together with an error; a failed decode of the hello message is an error.
+//@ func client.ReadSchema(c) -> res, err
+//@   requires c != nil && !locked(c)
+//@   ensures err != nil ==> res == nil
+//@   ensures err == nil ==> res != nil
+//@   ensures ghost("cborfail:stream") > old(ghost("cborfail:stream")) ==> err != nil
+//@ func client.validateVersion(c, serverVersion) -> err
+//@   ensures (err == nil) == (exists i int :: 0 <= i && i < len(supportedServerVersions) && supportedServerVersions[i] == serverVersion)
+//@   loop 1 invariant forall j int :: 0 <= j && j <= idx ==> supportedServerVersions[j] != serverVersion
+
+// Result delivery (caller holds the mutex): only the entry of this run ID is completed; every other entry is
+// untouched (a result is never delivered to a different run ID).
+//@ func client.sendExecutionResult(c, runID, result)
+//@   requires c != nil && locked(c)
+//@   ensures locked(c)
+//@   ensures runID in old(c.runningStepResultEntries) ==> c.runningStepResultEntries[runID].result != nil && c.runningStepResultEntries[runID].result.Error == result.Error && c.runningStepResultEntries[runID].result.OutputID == result.OutputID && signalled(c.runningStepResultEntries[runID])
+//@   ensures forall k string :: k in c.runningStepResultEntries && (!(runID in c.runningStepResultEntries) || c.runningStepResultEntries[k] != c.runningStepResultEntries[runID]) ==> c.runningStepResultEntries[k].result == old(c.runningStepResultEntries[k].result)
+//@   ensures c.runningStepResultEntries == old(c.runningStepResultEntries) && (forall k string :: (k in c.runningStepResultEntries) == old(k in c.runningStepResultEntries)) && (forall k string :: k in c.runningStepResultEntries ==> c.runningStepResultEntries[k] == old(c.runningStepResultEntries[k]))
+//@   ensures c.readLoopRunning == old(c.readLoopRunning)
+
+// A fatal stream error completes every pending entry with an error.
+//@ func NewErrorExecutionResult(err) -> res
+//@   ensures res.Error == err
+//@ func client.sendErrorToAll(c, err)
+//@   requires c != nil && !locked(c) && err != nil
+//@   counted
+//@   loop 1 invariant locked(c) && (forall k string :: k in visited ==> k in c.runningStepResultEntries && c.runningStepResultEntries[k].result != nil)
+//@   checks forall k string :: k in c.runningStepResultEntries ==> c.runningStepResultEntries[k].result != nil
+
+// A work-done message that does not decode becomes that run's error - never a success.
+//@ func client.handleWorkDoneMessage(c, runtimeMessage)
+//@   requires c != nil && !locked(c)
+//@   checks runtimeMessage.RunID in c.runningStepResultEntries ==> c.runningStepResultEntries[runtimeMessage.RunID].result != nil
+//@   checks ghost("cborfail:message") > old(ghost("cborfail:message")) && runtimeMessage.RunID in c.runningStepResultEntries ==> c.runningStepResultEntries[runtimeMessage.RunID].result.Error != nil
+//@ func client.getResultV1(c, cborReader, stepData) -> res
+//@   requires c != nil && cborReader != nil
+//@   ensures ghost("cborfail:stream") > old(ghost("cborfail:stream")) ==> res.Error != nil
+
+// A stream that cannot be decoded any more fails every pending call.
+//@ func client.executeReadLoop(c, cborReader)
+//@   requires c != nil && cborReader != nil && !locked(c)
+//@   ensures ghost("cborfail:stream") > old(ghost("cborfail:stream")) ==> ghost("calls:atp.client.sendErrorToAll") > old(ghost("calls:atp.client.sendErrorToAll"))
+//@   loop 1 invariant !locked(c) && fatalErr == nil && ghost("cborfail:stream") == old(ghost("cborfail:stream")) && ghost("calls:atp.client.sendErrorToAll") >= old(ghost("calls:atp.client.sendErrorToAll"))
+// the deferred hand-over of the read loop (inlined where the loop returns)
+//@ func client.executeReadLoop$1()
+//@   loop 1 invariant locked(c) && !c.readLoopRunning && (forall k string :: k in visited ==> k in c.runningStepResultEntries && c.runningStepResultEntries[k].result != nil)
+//@ func client.handleErrorMessage(c, runtimeMessage) -> fatal
+//@   requires c != nil && !locked(c)
+//@   ensures !locked(c) && ghost("cborfail:stream") == old(ghost("cborfail:stream")) && ghost("calls:atp.client.sendErrorToAll") >= old(ghost("calls:atp.client.sendErrorToAll"))
+//@   ensures fatal ==> ghost("calls:atp.client.sendErrorToAll") > old(ghost("calls:atp.client.sendErrorToAll"))
+//@ func client.handleSignalMessage(c, runtimeMessage)
+//@   requires c != nil && !locked(c)
+//@   ensures !locked(c) && ghost("cborfail:stream") == old(ghost("cborfail:stream")) && ghost("calls:atp.client.sendErrorToAll") == old(ghost("calls:atp.client.sendErrorToAll"))
+//@ func client.hasEntriesRemaining(c) -> res
+//@   requires c != nil && !locked(c)
+//@   ensures !locked(c) && ghost("cborfail:stream") == old(ghost("cborfail:stream")) && ghost("calls:atp.client.sendErrorToAll") == old(ghost("calls:atp.client.sendErrorToAll"))
+//@ func client.hasEntriesRemainingLocked(c) -> res
+//@   requires c != nil && locked(c)
+//@   ensures locked(c)
+//@   ensures res == (exists k string :: k in c.runningStepResultEntries && c.runningStepResultEntries[k].result == nil)
+//@   assigns nothing
+//@   loop 1 invariant forall k string :: k in visited ==> c.runningStepResultEntries[k].result != nil
+
+// C06: starting a run registers its entry and makes sure a read loop is (marked) running; waiting for the result.
+//@ func client.prepareResultChannels(c, cborReader, stepData, emittedSignals) -> err
+//@   requires c != nil && !locked(c) && cborReader != nil
+//@   ensures !locked(c)
+//@ func client.getResult(c, stepData, cborReader) -> res
+//@   requires c != nil && !locked(c) && cborReader != nil
+//@ func client.getResultV2(c, stepData) -> res
+//@   requires c != nil && !locked(c)
+//@ func client.sendCBOR(c, message) -> err
+//@   requires c != nil && !locked(c)
+//@   ensures !locked(c)
+//@ func client.Execute(c, stepData, signalsToStep, signalsFromStep) -> res
+//@   requires c != nil && !locked(c)
+//@ func client.Close(c) -> err
+//@   requires c != nil && !locked(c)
+//@ func client.executeWriteLoop(c, runID, signalsToStep)
+//@   requires c != nil && !locked(c)
+//@ func client.processWorkDone(c, runID, doneMessage) -> res
+//@   requires c != nil
+//@   ensures res.Error == nil && res.OutputID == doneMessage.OutputID
+//@   ensures locked(c) == old(locked(c))
